@@ -688,6 +688,53 @@ H_SAlg(e) ==
           [] e.kind = "is_disjoint" -> Chk("C13", "is_disjoint", e, (e.res.b = 1) <=> (A \cap B = {}))
 
 (***************************************************************************)
+(* C07: an operation interrupted by a panic injected at one callback       *)
+(*   fault = [kind: 0 Hash | 1 Eq | 2 Clone | 3 closure, at, of, fired, victim]  *)
+(***************************************************************************)
+SeqIds(q, i, j) == {q[n][i] : n \in DOMAIN q} \cup {q[n][j] : n \in DOMAIN q}
+NewIds(e) ==
+    NZ( (IF HasF(e, "kid") THEN {e.kid} ELSE {}) \cup (IF HasF(e, "vid") THEN {e.vid} ELSE {})
+        \cup (IF HasF(e, "vids") THEN ToSet(e.vids) ELSE {})
+        \cup (IF HasF(e, "ids") THEN SeqIds(e.ids, 1, 2) ELSE {})
+        \cup (IF HasF(e, "objs") THEN SeqIds(e.objs, 3, 4) ELSE {})
+        \cup ToSet(e.led.new) )
+OpKeys(e) ==
+    (IF HasF(e, "k") THEN {e.k} ELSE {}) \cup (IF HasF(e, "items") THEN {e.items[i][1] : i \in DOMAIN e.items} ELSE {})
+KeyAddingOps == {"Insert", "Entry", "RawEntry", "SInsert", "SReplace", "SGetOrInsert", "SGetOrInsertOwned", "SGetOrInsertWith"}
+H_Fault(e) ==
+    LET s == e.s
+        kind == e.fault.kind
+        twoSlot == e.op \in {"Clone", "CloneFrom"}
+        W == IF twoSlot THEN {e.d} ELSE IF e.op \in {"Eq", "SAlg"} THEN {} ELSE {s}
+    IN
+    /\ Chk("C07", "only_the_injected_panic", e, Panicked(e) /\ e.res.class = "fuse")
+    /\ Frame(e, W)
+    /\ (twoSlot /\ Alive(snap, s)) => Chk("C07,C11", "interrupted_clone_leaves_source_intact", e, Post(e, s) = Pre(s))
+    /\ (~twoSlot /\ W # {} /\ Alive(snap, s) /\ Alive(e.st, s) /\ IsFull(Pre(s)) /\ IsFull(Post(e, s))) =>
+        LET E == Cont(Pre(s))
+            E2 == Cont(Post(e, s))
+            lost == Keys(E) \ Keys(E2)
+            removedByVerdict ==
+                IF e.op = "Retain" THEN {e.calls[i][1] : i \in {j \in DOMAIN e.calls : e.calls[j][3] = 0}}
+                ELSE IF e.op = "DrainFilter" THEN {e.calls[i][1] : i \in {j \in DOMAIN e.calls : e.calls[j][3] = 1}}
+                ELSE {}
+        IN
+        /\ Chk("C07", "no_element_out_of_thin_air", e,
+               /\ Keys(E2) \subseteq Keys(E) \cup OpKeys(e)
+               /\ Ids(E2) \subseteq Ids(E) \cup NewIds(e))
+        /\ Chk("C07", "survivors_keep_their_objects", e,
+               \A x \in E2 : (Has(E, x[1]) /\ x[3] \in Ids(E) /\ x[3] # 0) => At(E, x[1])[3] = x[3])
+        /\ Chk("C07", "loss_bound", e,
+               CASE kind \in {1, 3} -> lost \subseteq {e.fault.victim} \cup removedByVerdict \cup
+                                          (IF e.op \in KeyAddingOps \/ e.op = "Extend" THEN {} ELSE {})
+                 [] kind = 0 -> IF e.op \in KeyAddingOps
+                                THEN lost \subseteq {e.fault.victim}    \* the element being relocated when its hash panicked
+                                ELSE IF e.op \in {"Get", "Remove", "RemoveEntry", "SRemove", "STake", "SContains", "SGet", "Iter", "Retain", "DrainFilter", "Clear", "Drain"}
+                                THEN lost \subseteq removedByVerdict
+                                ELSE lost \subseteq Keys(E)
+                 [] OTHER -> lost = {})
+
+(***************************************************************************)
 (* The trace behaviour                                                     *)
 (***************************************************************************)
 Dispatch(e) ==
@@ -718,6 +765,9 @@ LeakOf(e) ==
     IF e.op = "Drain" /\ e.end = "forget" /\ Alive(snap, e.s)
     THEN [ids |-> IF IsFull(Pre(e.s)) THEN Ids(Cont(Pre(e.s)) \ ToSet(e.yield)) ELSE {},
           allocs |-> Tables(Pre(e.s))]
+    ELSE IF Faulted(e) /\ e.fault.fired = 1 /\ e.op = "CloneFrom"
+    THEN \* "an interrupted clone_from ... possibly leaking clones"
+         [ids |-> ToSet(e.led.new) \ (AllIds(e.st) \cup ToSet(e.led.drop)), allocs |-> 0]
     ELSE [ids |-> {}, allocs |-> 0]
 
 Init == /\ l = 2 /\ snap = <<>> /\ leakIds = {} /\ leakAllocs = 0
@@ -729,13 +779,17 @@ Step ==
                 \* the object ledger is global to the process; the allocation counter is re-based
                 /\ snap' = <<>> /\ leakIds' = leakIds /\ leakAllocs' = 0
          [] e.op = "Skip" -> UNCHANGED <<snap, leakIds, leakAllocs>>
+         [] e.op = "Snap" ->
+                \* state reached by a silently replayed prefix (crash-point enumeration)
+                /\ GlobalMon(e, leakAllocs) = TRUE
+                /\ snap' = e.st /\ leakIds' = ToSet(e.leaked) /\ UNCHANGED leakAllocs
          [] e.op = "EndRun" ->
                 /\ Chk("C06", "nothing_leaks", e, ToSet(e.live_ids) = leakIds /\ e.live_allocs = leakAllocs) = TRUE
                 /\ UNCHANGED <<snap, leakIds, leakAllocs>>
          [] OTHER ->
                 LET lk == LeakOf(e) IN
                 \* (= TRUE: evaluated as one expression, never decomposed into sub-actions)
-                /\ (IF Faulted(e) THEN TRUE ELSE Dispatch(e)) = TRUE
+                /\ (IF Faulted(e) /\ e.fault.fired = 1 THEN H_Fault(e) ELSE Dispatch(e)) = TRUE
                 /\ GlobalMon(e, leakAllocs + lk.allocs) = TRUE
                 /\ snap' = e.st
                 /\ leakIds' = leakIds \cup lk.ids
